@@ -49,10 +49,15 @@ func newAggWorld() *AggWorld {
 			panic("mint: " + r.Log + r.VMError)
 		}
 	}
+	// xb: a token whose transfer pays a bonus (more than requested from an amount of 2 on); the user holds some
+	w.reg("xb", w.deploy(bonusTokenCode(), nil))
+	if r := c.DeliverEth(user, addrp(w.Addr["xb"]), nil, mustPack(erc20ABI, "mint", user.Eth, big.NewInt(aggStart))); !r.OK() {
+		panic("mint xb: " + r.Log + r.VMError)
+	}
 	w.reg("xd", w.deploy(erc20contracts.ERC20MaliciousDelayedContract.Bin, mustPack(erc20contracts.ERC20MaliciousDelayedContract.ABI, "", big.NewInt(aggStart))))
 	w.reg("xm", w.deploy(erc20contracts.ERC20DirectBalanceManipulationContract.Bin, mustPack(erc20contracts.ERC20DirectBalanceManipulationContract.ABI, "", big.NewInt(aggStart))))
 	w.Denoms = append([]string{}, w.Coins...)
-	for _, n := range []string{"x1", "x2", "x3", "xd", "xm"} {
+	for _, n := range []string{"x1", "x2", "x3", "xb", "xd", "xm"} {
 		w.Denoms = append(w.Denoms, w.voucher(n))
 	}
 	c.Commit()
@@ -203,7 +208,7 @@ func (w *AggWorld) project() M {
 		}
 	}
 	tbal, tesc, tsup, code := M{}, M{}, M{}, M{}
-	for _, n := range []string{"m1", "m2", "x1", "x2", "x3", "xd", "xm"} {
+	for _, n := range []string{"m1", "m2", "x1", "x2", "x3", "xb", "xd", "xm"} {
 		a, ok := w.Addr[n]
 		if !ok {
 			tbal[n], tesc[n], tsup[n], code[n] = 0, 0, 0, false
@@ -268,7 +273,7 @@ func driveAggregate(t *testing.T, in, out string, seed int64) {
 				line["res"], line["msg"] = res, clip(msg)
 			case "Toggle":
 				tok := str(st["t"])
-				if _, isC := map[string]bool{"m1": true, "m2": true, "x1": true, "x2": true, "x3": true, "xd": true, "xm": true}[tok]; isC {
+				if _, isC := map[string]bool{"m1": true, "m2": true, "x1": true, "x2": true, "x3": true, "xb": true, "xd": true, "xm": true}[tok]; isC {
 					tok = w.contractAddr(tok).Hex()
 				} else {
 					tok = w.realDenom(tok)
